@@ -20,6 +20,9 @@ type c20RegW struct {
 	K     int   `json:"k"`   // machine cycle of the write
 	V     uint8 `json:"v"`
 	All   bool  `json:"all,omitempty"` // enumerate all eight values (replay: one)
+	// NR10 != 0 (routed channel 1 only): channel 1 plays with its frequency sweep running, and the run is long enough for
+	// several sweep steps after the write: the sweep unit is channel 1's alone
+	NR10 uint8 `json:"nr10,omitempty"`
 }
 
 var c20RegVals = []uint8{0x00, 0xff, 0x40, 0x80, 0xc0, 0x3f, 0x08, 0x7f}
@@ -38,6 +41,14 @@ func c20RegRun(c c20RegW, write bool, v uint8) (l, r []float32) {
 		switch ch {
 		case 1:
 			w(0xff10, 0x00)
+			if ch == c.Obs && c.NR10 != 0 {
+				w(0xff10, c.NR10)
+				w(0xff11, 0x80|lenBits&0x3f)
+				w(0xff12, 0xf0)
+				w(0xff13, 0x00)
+				w(0xff14, 0x84)
+				break
+			}
 			w(0xff11, 0x80|lenBits&0x3f)
 			w(0xff12, 0xf0)
 			w(0xff13, 0x9b)
@@ -62,7 +73,11 @@ func c20RegRun(c c20RegW, write bool, v uint8) (l, r []float32) {
 	}
 	start(c.Other, 0xff) // length counter 1, length counting off
 	start(c.Obs, 0x00)
-	for cyc := 0; cyc < c.K+1400; cyc++ {
+	horizon := c.K + 1400
+	if c.NR10 != 0 {
+		horizon = c.K + 60000 // seven sweep clocks
+	}
+	for cyc := 0; cyc < horizon; cyc++ {
 		if cyc == c.K && write {
 			w(uint16(0xff10+5*(c.Other-1)+c.Reg), v)
 		}
@@ -99,7 +114,7 @@ func c20RegCheck(lc *explore.Local, _ struct{}, c c20RegW) *explore.Fail {
 					f := explore.Failf("a sample depends on a channel that is not routed to that side",
 						"only channel %d is routed (both sides); channel %d plays unrouted with its length counter at 1: writing %02x to %s after %d machine cycles changes the %s samples (sample %d of %d / %d)",
 						c.Obs, c.Other, v, reg, c.K, [2]string{"right", "left"}[side], i, len(pair[0]), len(pair[1]))
-					f.Case = c20RegW{Obs: c.Obs, Other: c.Other, Reg: c.Reg, K: c.K, V: v}
+					f.Case = c20RegW{Obs: c.Obs, Other: c.Other, Reg: c.Reg, K: c.K, V: v, NR10: c.NR10}
 					return f
 				}
 			}
@@ -118,7 +133,7 @@ func c20RegPart(c *Ctx) {
 	}
 	explore.Product(c.R, "independence-under-register-writes", explore.PartOpt{
 		Bound:  "1,400 machine cycles after the write; two runs per (pair, register, value, moment)",
-		Domain: fmt.Sprintf("every ordered pair (routed channel, unrouted channel) x the unrouted channel's five registers x 8 values x %d moments (both halves of a frame-sequencer period); the unrouted channel plays with its length counter at 1", len(ks))},
+		Domain: fmt.Sprintf("every ordered pair (routed channel, unrouted channel) x the unrouted channel's five registers x 8 values x %d moments (both halves of a frame-sequencer period); the unrouted channel plays with its length counter at 1; with channel 1 routed also while its frequency sweep runs (2 NR10 settings, 60,000 cycles)", len(ks))},
 		func(yield func(c20RegW) bool) {
 			for obs := 1; obs <= 4; obs++ {
 				for other := 1; other <= 4; other++ {
@@ -129,6 +144,15 @@ func c20RegPart(c *Ctx) {
 						for _, k := range ks {
 							if !yield(c20RegW{Obs: obs, Other: other, Reg: reg, K: k, All: true}) {
 								return
+							}
+						}
+					}
+					if obs == 1 {
+						for _, nr10 := range []uint8{0x17, 0x2c} {
+							for reg := 0; reg < 5; reg++ {
+								if !yield(c20RegW{Obs: obs, Other: other, Reg: reg, K: 500, All: true, NR10: nr10}) {
+									return
+								}
 							}
 						}
 					}
